@@ -361,7 +361,9 @@ restart:
 
         auto k = extension->key.load(std::memory_order_relaxed);
         auto v = extension->value.load(std::memory_order_relaxed);
-        bucket.key[i].store(k, std::memory_order_relaxed);
+        // this release-store synchronizes-with the acquire-load of the key in try_get_value: a reader that sees
+        // the new key also sees the delete marker (or a newer version) when it re-reads the bucket state
+        bucket.key[i].store(k, std::memory_order_release);
         // (8)  - this release-store synchronizes-with the acquire-load (24)
         bucket.value[i].store(v, std::memory_order_release);
 
@@ -386,7 +388,9 @@ restart:
 
           auto k = bucket.key[item_count - 1].load(std::memory_order_relaxed);
           auto v = bucket.value[item_count - 1].load(std::memory_order_relaxed);
-          bucket.key[i].store(k, std::memory_order_relaxed);
+          // this release-store synchronizes-with the acquire-load of the key in try_get_value: a reader that sees
+          // the new key also sees the delete marker (or a newer version) when it re-reads the bucket state
+          bucket.key[i].store(k, std::memory_order_release);
           // (12) - this release-store synchronizes-with the acquire-load (24)
           bucket.value[i].store(v, std::memory_order_release);
         }
@@ -457,7 +461,9 @@ void vyukov_hash_map<Key, Value, Policies...>::erase(iterator& pos) {
 
     auto k = extension->key.load(std::memory_order_relaxed);
     auto v = extension->value.load(std::memory_order_relaxed);
-    pos.current_bucket->key[pos.index].store(k, std::memory_order_relaxed);
+    // this release-store synchronizes-with the acquire-load of the key in try_get_value: a reader that sees
+    // the new key also sees the delete marker (or a newer version) when it re-reads the bucket state
+    pos.current_bucket->key[pos.index].store(k, std::memory_order_release);
     // (16) - this release-store synchronizes-with the acquire-load (24)
     pos.current_bucket->value[pos.index].store(v, std::memory_order_release);
 
@@ -489,7 +495,9 @@ void vyukov_hash_map<Key, Value, Policies...>::erase(iterator& pos) {
 
       auto k = pos.current_bucket->key[max_index].load(std::memory_order_relaxed);
       auto v = pos.current_bucket->value[max_index].load(std::memory_order_relaxed);
-      pos.current_bucket->key[pos.index].store(k, std::memory_order_relaxed);
+      // this release-store synchronizes-with the acquire-load of the key in try_get_value: a reader that sees
+      // the new key also sees the delete marker (or a newer version) when it re-reads the bucket state
+      pos.current_bucket->key[pos.index].store(k, std::memory_order_release);
       // (20) - this release-store synchronizes-with the acquire-load  (24)
       pos.current_bucket->value[pos.index].store(v, std::memory_order_release);
     }
